@@ -7,8 +7,8 @@
 fn c19_coor4d_set_nth() {
     let orig = any_c4();
     let mut c = orig;
-    let n: usize = kani::any();
-    let v: f64 = kani::any();
+    let n: usize = nd();
+    let v: f64 = nd();
     c.set_nth(n, v);
     if n < 4 {
         assert!(beq(c.nth(n), v));
@@ -23,7 +23,7 @@ fn c19_coor4d_set_nth() {
         }
     }
     // out-of-range read is NaN, never a crash
-    let m: usize = kani::any();
+    let m: usize = nd();
     if m >= 4 {
         assert!(orig.nth(m).is_nan());
     } else {
@@ -38,10 +38,10 @@ fn c19_coor4d_set_nth() {
 #[kani::proof]
 #[kani::unwind(6)]
 fn c19_coor3d_set_nth() {
-    let orig = Coor3D([kani::any(), kani::any(), kani::any()]);
+    let orig = Coor3D([nd(), nd(), nd()]);
     let mut c = orig;
-    let n: usize = kani::any();
-    let v: f64 = kani::any();
+    let n: usize = nd();
+    let v: f64 = nd();
     c.set_nth(n, v);
     if n < 3 {
         assert!(beq(c.nth(n), v));
@@ -55,7 +55,7 @@ fn c19_coor3d_set_nth() {
             assert!(c.nth(k).is_nan());
         }
     }
-    let m: usize = kani::any();
+    let m: usize = nd();
     if m >= 3 {
         assert!(orig.nth(m).is_nan());
     } else {
@@ -70,10 +70,10 @@ fn c19_coor3d_set_nth() {
 #[kani::proof]
 #[kani::unwind(6)]
 fn c19_coor2d_set_nth() {
-    let orig = Coor2D([kani::any(), kani::any()]);
+    let orig = Coor2D([nd(), nd()]);
     let mut c = orig;
-    let n: usize = kani::any();
-    let v: f64 = kani::any();
+    let n: usize = nd();
+    let v: f64 = nd();
     c.set_nth(n, v);
     if n < 2 {
         assert!(beq(c.nth(n), v));
@@ -81,7 +81,7 @@ fn c19_coor2d_set_nth() {
     } else {
         assert!(c.nth(0).is_nan() && c.nth(1).is_nan());
     }
-    let m: usize = kani::any();
+    let m: usize = nd();
     if m >= 2 {
         assert!(orig.nth(m).is_nan());
     } else {
@@ -96,10 +96,10 @@ fn c19_coor2d_set_nth() {
 #[kani::proof]
 #[kani::unwind(6)]
 fn c19_coor32_set_nth() {
-    let orig = Coor32([kani::any(), kani::any()]);
+    let orig = Coor32([nd(), nd()]);
     let mut c = orig;
-    let n: usize = kani::any();
-    let v: f64 = kani::any();
+    let n: usize = nd();
+    let v: f64 = nd();
     c.set_nth(n, v);
     if n < 2 {
         // the stored dimension is the f32 rounding of what was written
@@ -109,7 +109,7 @@ fn c19_coor32_set_nth() {
     } else {
         assert!(c.nth(0).is_nan() && c.nth(1).is_nan());
     }
-    let m: usize = kani::any();
+    let m: usize = nd();
     if m >= 2 {
         assert!(orig.nth(m).is_nan());
     } else {
@@ -123,10 +123,10 @@ fn c19_coor32_set_nth() {
 #[kani::proof]
 #[kani::unwind(6)]
 fn c19_pair_set_nth() {
-    let orig: (f64, f64) = (kani::any(), kani::any());
+    let orig: (f64, f64) = (nd(), nd());
     let mut c = orig;
-    let n: usize = kani::any();
-    let v: f64 = kani::any();
+    let n: usize = nd();
+    let v: f64 = nd();
     c.set_nth(n, v);
     if n == 0 {
         assert!(beq(c.0, v) && beq(c.1, orig.1));
@@ -135,7 +135,7 @@ fn c19_pair_set_nth() {
     } else {
         assert!(c.0.is_nan() && c.1.is_nan());
     }
-    let m: usize = kani::any();
+    let m: usize = nd();
     let r = orig.nth(m);
     if m >= 2 {
         assert!(r.is_nan());
@@ -158,7 +158,7 @@ fn c19_coor4d_accessors() {
     assert!(beq(x, c.0[0]) && beq(y, c.0[1]) && beq(z, c.0[2]) && beq(t, c.0[3]));
     assert!(beq(c[2], c.0[2]));
     // setters
-    let (p, q, r, s): (f64, f64, f64, f64) = (kani::any(), kani::any(), kani::any(), kani::any());
+    let (p, q, r, s): (f64, f64, f64, f64) = (nd(), nd(), nd(), nd());
     let mut d = c;
     d.set_xy(p, q);
     assert!(beq(d.0[0], p) && beq(d.0[1], q) && beq(d.0[2], c.0[2]) && beq(d.0[3], c.0[3]));
@@ -169,8 +169,8 @@ fn c19_coor4d_accessors() {
     d.set_xyzt(p, q, r, s);
     assert!(beq(d.0[0], p) && beq(d.0[1], q) && beq(d.0[2], r) && beq(d.0[3], s));
     // update with a slice of length 0..=5
-    let vals: [f64; 5] = kani::any();
-    let l: usize = kani::any();
+    let vals: [f64; 5] = nd();
+    let l: usize = nd();
     kani::assume(l <= 5);
     let mut d = c;
     d.update(&vals[..l]);
@@ -181,7 +181,7 @@ fn c19_coor4d_accessors() {
             assert!(beq(d.0[k], c.0[k]));
         }
     }
-    let f: f64 = kani::any();
+    let f: f64 = nd();
     let n = <Coor4D as CoordinateTuple>::new(f);
     assert!(beq(n.0[0], f) && beq(n.0[1], f) && beq(n.0[2], f) && beq(n.0[3], f));
     let r = Coor4D::raw(p, q, r, s);
@@ -195,8 +195,8 @@ fn c19_coor4d_accessors() {
 #[kani::proof]
 #[kani::unwind(6)]
 fn c19_lowdim_accessors() {
-    let (p, q, r, s): (f64, f64, f64, f64) = (kani::any(), kani::any(), kani::any(), kani::any());
-    let c = Coor3D([kani::any(), kani::any(), kani::any()]);
+    let (p, q, r, s): (f64, f64, f64, f64) = (nd(), nd(), nd(), nd());
+    let c = Coor3D([nd(), nd(), nd()]);
     let (x, y, z, t) = c.xyzt();
     assert!(beq(x, c.0[0]) && beq(y, c.0[1]) && beq(z, c.0[2]) && t.is_nan());
     let mut d = c;
@@ -209,7 +209,7 @@ fn c19_lowdim_accessors() {
     d.set_xyzt(p, q, r, s);
     assert!(d.0[0].is_nan() && d.0[1].is_nan() && d.0[2].is_nan());
 
-    let c = Coor2D([kani::any(), kani::any()]);
+    let c = Coor2D([nd(), nd()]);
     let (x, y, z, t) = c.xyzt();
     assert!(beq(x, c.0[0]) && beq(y, c.0[1]) && z.is_nan() && t.is_nan());
     let mut d = c;
@@ -219,7 +219,7 @@ fn c19_lowdim_accessors() {
     d.set_xyz(p, q, r);
     assert!(d.0[0].is_nan() && d.0[1].is_nan());
 
-    let c = Coor32([kani::any(), kani::any()]);
+    let c = Coor32([nd(), nd()]);
     let (x, y, z, t) = c.xyzt();
     assert!(beq(x, c.0[0] as f64) && beq(y, c.0[1] as f64) && z.is_nan() && t.is_nan());
     let mut d = c;
